@@ -24,7 +24,7 @@ impl Rng {
 }
 
 #[derive(Clone, Copy, PartialEq, Debug)]
-enum Kind { Lock, Try, Read, Write, TryRead, TryWrite }
+enum Kind { Lock, Try, Read, Write, TryRead, TryWrite, Dbg }
 
 #[derive(Default)]
 struct Book {
@@ -48,6 +48,7 @@ fn parse_prog(s: &str) -> Vec<(Kind, usize)> {
             let (k, n) = if let Some(r) = w.strip_prefix("tr") { (Kind::TryRead, r) }
                 else if let Some(r) = w.strip_prefix("tw") { (Kind::TryWrite, r) }
                 else if let Some(r) = w.strip_prefix('l') { (Kind::Lock, r) }
+                else if let Some(r) = w.strip_prefix('d') { (Kind::Dbg, r) }
                 else if let Some(r) = w.strip_prefix('t') { (Kind::Try, r) }
                 else if let Some(r) = w.strip_prefix('r') { (Kind::Read, r) }
                 else if let Some(r) = w.strip_prefix('w') { (Kind::Write, r) }
@@ -61,7 +62,7 @@ fn excl(k: Kind) -> bool { !matches!(k, Kind::Read | Kind::TryRead) }
 fn is_try(k: Kind) -> bool { matches!(k, Kind::Try | Kind::TryRead | Kind::TryWrite) }
 
 fn txn_begin(me: usize, k: Kind) -> (bool, u64) {
-    shim::note(match k { Kind::Lock => "call-lock", Kind::Try => "call-try", Kind::Read => "call-read", Kind::Write => "call-write", Kind::TryRead => "call-tryread", Kind::TryWrite => "call-trywrite" });
+    shim::note(match k { Kind::Lock => "call-lock", Kind::Try => "call-try", Kind::Read => "call-read", Kind::Write => "call-write", Kind::TryRead => "call-tryread", Kind::TryWrite => "call-trywrite", Kind::Dbg => "call-try" });
     book(|b| {
         // would this request be admissible right now, judged by the loose (over-approximated) holders?
         let conflict = b.loose.iter().any(|(t, e)| *t != me && (*e || excl(k)));
@@ -105,8 +106,36 @@ fn txn_release_end(me: usize) {
     });
 }
 
+thread_local! { static DBG_TOOK: std::cell::Cell<bool> = std::cell::Cell::new(false); }
+
+/// runs right after the successful CAS inside `impl Debug for Mutex` (no other thread has moved in between)
+fn dbg_guard_taken() {
+    let me = shim::tid().unwrap();
+    DBG_TOOK.with(|d| d.set(true));
+    txn_acquired(me, Kind::Try);
+    txn_release_start(me);
+}
+
+/// `{:?}` of the mutex itself: the library takes (try_lock) and drops a guard of its own = a `t0` transaction
+fn run_debug_format(me: usize, m: &sync::Mutex<u64>) {
+    let snap = txn_begin(me, Kind::Try);
+    DBG_TOOK.with(|d| d.set(false));
+    shim::ON_CAS_OK.with(|c| c.set(Some(dbg_guard_taken)));
+    let text = format!("{:?}", m);
+    shim::ON_CAS_OK.with(|c| c.set(None));
+    let took = DBG_TOOK.with(|d| d.get());
+    if took == text.contains("<locked>") {
+        book(|b| b.violations.push(format!("debug-format: t{} formatted {:?} although its try_lock {}", me, text, if took { "succeeded" } else { "failed" })));
+    }
+    if took { txn_release_end(me) } else { txn_try_failed(me, Kind::Try, snap) }
+}
+
 fn run_mutex_thread(me: usize, m: Arc<sync::Mutex<u64>>, prog: Vec<(Kind, usize)>) {
     for (k, acc) in prog {
+        if k == Kind::Dbg {
+            run_debug_format(me, &m);
+            continue;
+        }
         let snap = txn_begin(me, k);
         let g = match k {
             Kind::Lock => Some(m.lock()),
